@@ -329,7 +329,9 @@ class PendingWhile(_PendingLoop[While]):
 
         # add additional check in "test"
         # if there is a break
+        self.nsp_global.in_while_test = self.nsp is self.nsp_global
         while_loop_test = utils.as_condition(expr_transf(self.nsp, self.node.test))
+        self.nsp_global.in_while_test = False
         if self.break_cnt:
             while_loop_test = BoolOp(
                 op=And(),
@@ -353,6 +355,24 @@ class PendingWhile(_PendingLoop[While]):
         # the main body of the oneliner while loop
         # `dummy_name` is not used, the name should not conflict with user's names
         dummy_name = ol_name(OL_WHILE_DUMMY)
+        while_loop_predicate: expr = Lambda(
+            args=arguments(
+                posonlyargs=[],
+                args=[arg(arg=dummy_name)],
+                kwonlyargs=[],
+                kw_defaults=[],
+                defaults=[],
+            ),
+            body=while_loop_test,
+        )
+        if utils.has_walrus(self.node.test):
+            # A walrus is not allowed in the iterable of a comprehension,
+            # the predicate is saved to a tmp
+            predicate_name = Name(id=ol_name(OL_WHILE_TEST))
+            while_loop_final.append(
+                NamedExpr(target=predicate_name, value=while_loop_predicate)
+            )
+            while_loop_predicate = predicate_name
         while_loop_body = ListComp(
             elt=self.nsp_global.expr_wraper(self.converted_body),
             generators=[
@@ -365,16 +385,7 @@ class PendingWhile(_PendingLoop[While]):
                             ctx=Load(),
                         ),
                         args=[
-                            Lambda(
-                                args=arguments(
-                                    posonlyargs=[],
-                                    args=[arg(arg=dummy_name)],
-                                    kwonlyargs=[],
-                                    kw_defaults=[],
-                                    defaults=[],
-                                ),
-                                body=while_loop_test,
-                            ),
+                            while_loop_predicate,
                             Call(
                                 func=Attribute(
                                     value=Name(id=OL_ITERTOOLS, ctx=Load()),
@@ -431,27 +442,39 @@ class PendingFor(_PendingLoop[For]):
             self.nsp_global,
         ).assign_auto(self.node.target, Name(id=self.item_expr.id, ctx=Load()))
 
+    def _get_iter(self, for_loop_final: list[expr]) -> expr:
+        converted_iter = expr_transf(self.nsp, self.node.iter)
+        if utils.has_walrus(self.node.iter):
+            # A walrus is not allowed in the iterable of a comprehension,
+            # the iterable is saved to a tmp
+            iter_name = Name(id=ol_name(OL_FOR_ITER))
+            for_loop_final.append(NamedExpr(target=iter_name, value=converted_iter))
+            return iter_name
+        return converted_iter
+
     def get_result(self) -> list[expr]:
         self.converted_body[0:0] = self._get_target_assign()
 
         # if no break/continue/return used
         # use the simplest list comprehension
+        for_loop_final: list[expr] = []
+
         if self.interrupt_cnt == 0 and len(self.node.orelse) == 0:
-            return [
+            for_loop_iter = self._get_iter(for_loop_final)
+            for_loop_final.append(
                 ListComp(
                     elt=self.nsp_global.expr_wraper(self.converted_body),
                     generators=[
                         comprehension(
                             target=Name(id=self.item_expr.id, ctx=Store()),
-                            iter=expr_transf(self.nsp, self.node.iter),
+                            iter=for_loop_iter,
                             ifs=[],
                             is_async=0,
                         )
                     ],
                 )
-            ]
-
-        for_loop_final: list[expr] = []
+            )
+            return for_loop_final
 
         # init the flow-control vars
         if self.flow_ctrl_interrupt_used:
@@ -474,7 +497,7 @@ class PendingFor(_PendingLoop[For]):
         # we don't need use iter_wrapper
         # if we don't use break
         if self.break_cnt == 0:
-            for_loop_iter = expr_transf(self.nsp, self.node.iter)
+            for_loop_iter = self._get_iter(for_loop_final)
         else:
             from .presets import iter_wrapper_name
 
@@ -944,6 +967,17 @@ class PendingFunctionDef(_PendingCompoundStmt[FunctionDef]):
             converted_args.kw_defaults.append(expr_transf(self.nsp, kw_default_expr))
 
         self.converted_body = []
+
+        # The targets of the walruses in the tests of the while loops
+        # are assigned from a lambda, so they are treated like
+        # the names which are assigned from inner functions
+        for name in utils.get_walrus_targets_of_while_tests(node.body):
+            symbol = self.internal_nsp.symt.lookup(name)
+            if symbol.is_declared_global() or symbol.is_nonlocal():
+                continue
+            self.internal_nsp.inner_nonlocal_names.add(name)
+            if symbol.is_parameter():
+                self.internal_nsp.nonlocal_parameters.add(name)
 
     def get_internal_namespace(self):
         return self.internal_nsp
